@@ -239,12 +239,14 @@ fn vfmt_disp<W: VWrite, T: VDisp + ?Sized>(w: &mut W, x: &T) ensures final(w).tr
     u.emit("} // verus!\nfn main() {}\n")
 
 
-def simple(u, path, block, name, events, rules, vpath, key=None, requires="", comment="", pre="", rename=None, extra_proofs=None, loops=None, t0_extra="", props=None):
+def simple(u, path, block, name, events, rules, vpath, key=None, requires="", comment="", pre="", rename=None, extra_proofs=None, loops=None, t0_extra="", props=None, refuses=""):
     """a renderer without loops (or with `loops`): its trace is the old one plus `events` (a spec expression over its parameters)"""
     pr = {"body-start": "let ghost t0 = sql.tr();" + t0_extra, "body-end": "proof { %s assert(sql.tr() =~= t0 + (%s)); }" % (pre, events)}
     pr.update(extra_proofs or {})
     u.fn(path, block, name, props=props or P, key=key or "%s::%s" % (vpath.split("::")[0], name), vpath=vpath, rules=list(rules) + [r_unit_tail], rename=rename, loops=loops,
-         spec=(("requires %s,\n" % requires) if requires else "") + "ensures\n" + ("    // %s\n" % comment if comment else "") + "    final(sql).tr() == old(sql).tr() + (%s)," % events,
+         spec=(("requires %s,\n" % requires) if requires else "") + "ensures\n"
+              + (("    // REFUSAL (panic! = a call after which false holds): the function returns only if\n    %s,\n" % refuses) if refuses else "")
+              + ("    // %s\n" % comment if comment else "") + "    final(sql).tr() == old(sql).tr() + (%s)," % events,
          proofs=pr)
 
 
@@ -296,9 +298,9 @@ def more_defaults(u):
            + abstract("prepare_generated_column", "x: &SimpleExpr, stored: bool", "Ev::Generated(*x, stored)") + abstract("column_comment", "x: &String", "Ev::Comment(x@)")
            + abstract("prepare_table_drop_opt", "x: &TableDropOpt", "Ev::DropOpt(*x)"), "schema::abstract-sub-renderers(defaults)", props=P)
     # a schema statement names a plain / schema-qualified table; a sub-query or VALUES list panics (precondition)
-    simple(u, TB, "trait TableBuilder", "prepare_table_ref_table_stmt", "seq![Ev::TRefIden(*table_ref)]", [r_dynw, make_r_sub("R-panic", r'panic!\("Not supported"\)', "vpanic()")], "Dflt::prepare_table_ref_table_stmt_impl",
+    simple(u, TB, "trait TableBuilder", "prepare_table_ref_table_stmt", "seq![Ev::TRefIden(*table_ref)]", [r_dynw, make_r_sub("R-panic", r'panic!\("Not supported"\)', "vpanic()", min_count=0)], "Dflt::prepare_table_ref_table_stmt_impl",
            key="TableBuilder::prepare_table_ref_table_stmt", rename="prepare_table_ref_table_stmt_impl",
-           requires="(*table_ref is Table) || (*table_ref is SchemaTable) || (*table_ref is DatabaseSchemaTable)", comment="the (qualified) table name: one name token per part (unit ident)")
+           refuses="(*table_ref is Table) || (*table_ref is SchemaTable) || (*table_ref is DatabaseSchemaTable)", comment="the (qualified) table name: one name token per part (unit ident)")
     d("prepare_column_spec", "colspec_events(*column_spec)",
       [r_dynw, r_qb, make_r_sub("R-opaque", r'write!\(sql, "\{\}", self\.column_spec_auto_increment_keyword\(\)\)\.unwrap\(\)', "self.prepare_auto_increment_keyword(sql)"), r_fmt],
       comment="each specification in its grammar form", t0_extra=" let ghost cs_ = *column_spec;", pre="assert(cs_ == *column_spec);")
@@ -365,8 +367,8 @@ pub open spec fn alter_events_mysql(a: TableAlterStatement) -> Seq<Ev> {
 def alter_fn(u, path, block, owner, listfn, optfn, extra_rules=(), flag="first", more_loops=(), more_proofs=None, more_req=""):
     """the ALTER TABLE renderer of a backend: keyword, table, then every option once, in call order, comma separated"""
     u.fn(path, block, "prepare_table_alter_statement", props=P, key="%s::prepare_table_alter_statement" % owner, vpath="%s::prepare_table_alter_statement" % owner, prefix="#[verifier::rlimit(80)]\n    ",
-         rules=[r_dynw, make_r_sub("R-panic", r'panic!\("No alter option found"\)', "vpanic()"), r_fold, r_semi, r_iden] + list(extra_rules) + [r_fmt],
-         spec="requires alter.options@.len() > 0,      // panics otherwise (`No alter option found`)\n" + more_req + "ensures\n    // every alter option exactly once, in call order, comma separated, each in the dialect's form\n    final(sql).tr() == old(sql).tr() + alter_events_%s(*alter)," % optfn,
+         rules=[r_dynw, make_r_sub("R-panic", r'panic!\("No alter option found"\)', "vpanic()", min_count=0), r_fold, r_semi, r_iden] + list(extra_rules) + [r_fmt],
+         spec=(("requires\n" + more_req) if more_req else "") + "ensures\n    // REFUSAL: an ALTER TABLE without any option panics (`No alter option found`): the function returns only if\n    alter.options@.len() > 0,\n    // every alter option exactly once, in call order, comma separated, each in the dialect's form\n    final(sql).tr() == old(sql).tr() + alter_events_%s(*alter)," % optfn,
          loops=["invariant it1.index@ <= alter.options@.len(), %s == (it1.index@ == 0), sql.tr() == ta + %s(alter.options@.subrange(0, it1.index@ as int))," % (flag, listfn)] + list(more_loops),
          proofs=dict({"body-start": "let ghost t0 = sql.tr();",
                  "before#1:let mut %s = true;" % flag: "let ghost ta = sql.tr();\nproof { lemma_%s_empty(alter.options@); assert(ta + emp() =~= ta); }" % listfn,
@@ -572,8 +574,8 @@ def postgres_table(u):
     r_any = make_r_sub("R-strfn", r"column_def\s*\.spec\s*\.iter\(\)\s*\.any\(\|v\| matches!\(v, ColumnSpec::AutoIncrement\)\)", "Self::vany_autoinc(&column_def.spec)")
     # the serial types
     u.fn(PT, BI, "prepare_column_auto_increment", rename="prepare_column_auto_increment_impl", props=P, key="PostgresQueryBuilder::prepare_column_auto_increment", vpath="PostgresQueryBuilder::prepare_column_auto_increment_impl",
-         rules=[r_dynw, r_semi, make_r_sub("R-panic", r'unimplemented!\("\{:\?\} doesn\'t support auto increment", column_type\)', "vpanic()"), r_fmt, r_unit_tail],
-         spec="requires (*column_type is SmallInteger) || (*column_type is Integer) || (*column_type is BigInteger),     // unimplemented!() otherwise\nensures\n    // the serial type of the same width\n    final(sql).tr() == old(sql).tr().push(Ev::Lit(serial_name(*column_type))),")
+         rules=[r_dynw, r_semi, make_r_sub("R-panic", r'unimplemented!\("\{:\?\} doesn\'t support auto increment", column_type\)', "vpanic()", min_count=0), r_fmt, r_unit_tail],
+         spec="ensures\n    // REFUSAL: no serial type for any other type (unimplemented!()): the function returns only if\n    (*column_type is SmallInteger) || (*column_type is Integer) || (*column_type is BigInteger),\n    // the serial type of the same width\n    final(sql).tr() == old(sql).tr().push(Ev::Lit(serial_name(*column_type))),")
     simple(u, PT, BI, "prepare_column_type_check_auto_increment", "coltype_part_pg(*column_def)", [r_dynw, r_pos, r_semi, r_fmt], "PostgresQueryBuilder::prepare_column_type_check_auto_increment_impl",
            key="PostgresQueryBuilder::prepare_column_type_check_auto_increment", rename="prepare_column_type_check_auto_increment_impl",
            requires="has_autoinc(column_def.spec@) && column_def.types is Some ==> (column_def.types->Some_0 is SmallInteger) || (column_def.types->Some_0 is Integer) || (column_def.types->Some_0 is BigInteger)",
@@ -775,19 +777,19 @@ def index_fk(u):
     u.emit("pub struct MysqlQueryBuilderI;\nimpl MysqlQueryBuilderI {\n")
     u.spec(common_abs, "schema::abstract-sub-renderers(mysql index)", props=P)
     O = "MysqlQueryBuilderI"
-    r_panic_ns = make_r_sub("R-panic", r'panic!\("Not supported"\)', "vpanic()")
+    r_panic_ns = make_r_sub("R-panic", r'panic!\("Not supported"\)', "vpanic()", min_count=0)
     simple(u, MI, BI, "prepare_index_prefix", "idxprefix_mysql(*create)", [r_dynw, r_fmt], O + "::prepare_index_prefix_impl", key="MysqlQueryBuilder::prepare_index_prefix", rename="prepare_index_prefix_impl")
-    simple(u, MI, BI, "prepare_index_type", "idxtype_mysql(*col_index_type)", [r_dynw, r_owned, r_custom, make_r_sub("R-panic", r"unreachable!\(\)", "({ vpanic(); Self::vstr_owned(\"\") })"), r_semi, r_fmt], O + "::prepare_index_type_impl",
+    simple(u, MI, BI, "prepare_index_type", "idxtype_mysql(*col_index_type)", [r_dynw, r_owned, r_custom, make_r_sub("R-panic", r"unreachable!\(\)", "({ vpanic(); Self::vstr_owned(\"\") })", min_count=0), r_semi, r_fmt], O + "::prepare_index_type_impl",
            key="MysqlQueryBuilder::prepare_index_type", rename="prepare_index_type_impl", comment="USING BTREE | HASH | <custom>; FULLTEXT is a prefix keyword in MySQL, not an index type")
     simple(u, MI, BI, "prepare_table_index_expression", "tblindex_mysql(*create)", [r_dynw, r_rawname, r_fmt], O + "::prepare_table_index_expression", key="MysqlQueryBuilder::prepare_table_index_expression",
            comment="[PRIMARY | UNIQUE | FULLTEXT] KEY [name] [USING type] (columns)")
     simple(u, MI, BI, "prepare_index_create_statement", "idxcreate_mysql(*create)", [r_dynw, r_rawname, r_fmt], O + "::prepare_index_create_statement", key="MysqlQueryBuilder::prepare_index_create_statement")
-    simple(u, MI, BI, "prepare_index_drop_statement", "idxdrop_mysql(*drop)", [r_dynw, r_rawname, make_r_sub("R-panic", r'panic!\("Mysql does not support IF EXISTS for DROP INDEX"\)', "vpanic()"), r_fmt],
-           O + "::prepare_index_drop_statement", key="MysqlQueryBuilder::prepare_index_drop_statement", requires="!drop.if_exists")
+    simple(u, MI, BI, "prepare_index_drop_statement", "idxdrop_mysql(*drop)", [r_dynw, r_rawname, make_r_sub("R-panic", r'panic!\("Mysql does not support IF EXISTS for DROP INDEX"\)', "vpanic()", min_count=0), r_fmt],
+           O + "::prepare_index_drop_statement", key="MysqlQueryBuilder::prepare_index_drop_statement", refuses="!drop.if_exists")
     simple(u, MI, BI, "prepare_table_ref_index_stmt", "seq![Ev::TRefIden(*table_ref)]", [r_dynw, r_panic_ns], O + "::prepare_table_ref_index_stmt_impl", key="MysqlQueryBuilder::prepare_table_ref_index_stmt",
-           rename="prepare_table_ref_index_stmt_impl", requires="*table_ref is Table")
+           rename="prepare_table_ref_index_stmt_impl", refuses="*table_ref is Table")
     simple(u, MF, BF, "prepare_table_ref_fk_stmt", "seq![Ev::TRefIden(*table_ref)]", [r_dynw, r_panic_ns], O + "::prepare_table_ref_fk_stmt_impl", key="MysqlQueryBuilder::prepare_table_ref_fk_stmt",
-           rename="prepare_table_ref_fk_stmt_impl", requires="*table_ref is Table")
+           rename="prepare_table_ref_fk_stmt_impl", refuses="*table_ref is Table")
     simple(u, MF, BF, "prepare_foreign_key_drop_statement_internal", "fkdrop_mysql(*drop, mode)", [r_dynw, r_rawname, r_fmt], O + "::prepare_foreign_key_drop_statement_internal", key="MysqlQueryBuilder::prepare_foreign_key_drop_statement_internal")
     fk_fn(u, MF, BF, O, "prepare_foreign_key_create_statement_internal", "fkcreate_mysql(*create, mode)", "fkpre_mysql")
     u.emit("}\n")
@@ -814,9 +816,9 @@ def index_fk(u):
                          "loop1-end": "proof { lemma_l_idens_step(columns@, it1.index@ as int); }"},
            pre="lemma_l_idens_empty(columns@);")
     simple(u, PI, BI, "prepare_table_ref_index_stmt", "seq![Ev::TRefIden(*table_ref)]", [r_dynw, r_panic_ns], O + "::prepare_table_ref_index_stmt_impl", key="PostgresQueryBuilder::prepare_table_ref_index_stmt",
-           rename="prepare_table_ref_index_stmt_impl", requires="(*table_ref is Table) || (*table_ref is SchemaTable)")
+           rename="prepare_table_ref_index_stmt_impl", refuses="(*table_ref is Table) || (*table_ref is SchemaTable)")
     simple(u, PF, BF, "prepare_table_ref_fk_stmt", "seq![Ev::TRefIden(*table_ref)]", [r_dynw, r_panic_ns], O + "::prepare_table_ref_fk_stmt_impl", key="PostgresQueryBuilder::prepare_table_ref_fk_stmt",
-           rename="prepare_table_ref_fk_stmt_impl", requires="(*table_ref is Table) || (*table_ref is SchemaTable) || (*table_ref is DatabaseSchemaTable)")
+           rename="prepare_table_ref_fk_stmt_impl", refuses="(*table_ref is Table) || (*table_ref is SchemaTable) || (*table_ref is DatabaseSchemaTable)")
     simple(u, PF, BF, "prepare_foreign_key_drop_statement_internal", "fkdrop_pg(*drop, mode)", [r_dynw, r_rawname, r_fmt], O + "::prepare_foreign_key_drop_statement_internal", key="PostgresQueryBuilder::prepare_foreign_key_drop_statement_internal")
     fk_fn(u, PF, BF, O, "prepare_foreign_key_create_statement_internal", "fkcreate_pg(*create, mode)", "fkpre_pg")
     u.emit("}\n")
@@ -957,7 +959,7 @@ def column_types(u):
     r_into = make_r_sub("R-strfn", r'"([^"]*)"\.into\(\)', r'vstr_owned("\1")')
     r_tostr = make_r_sub("R-strfn", r'"(\w+)"\.to_string\(\)', r'vstr_owned("\1")', min_count=0)
     r_idstr = make_r_sub("R-strfn", r"\b(iden|name)\.to_string\(\)", r"viden_string(\1)")
-    r_unimpl = make_r_sub("R-panic", r'unimplemented!\("[^"]*"\)', '({ vpanic(); vstr_owned("") })')
+    r_unimpl = make_r_sub("R-panic", r'unimplemented!\("[^"]*"\)', '({ vpanic(); vstr_owned("") })', min_count=0)
     MT, PT = "src/backend/mysql/table.rs", "src/backend/postgres/table.rs"
     src_m = rl.find_fn(MT, u.src(MT), rl.find_block(MT, u.src(MT), "impl TableBuilder for MysqlQueryBuilder")[0], "prepare_column_type").text
     src_p = rl.find_fn(PT, u.src(PT), rl.find_block(PT, u.src(PT), "impl TableBuilder for PostgresQueryBuilder")[0], "prepare_column_type").text
@@ -974,8 +976,9 @@ def column_types(u):
          rules=[r_dynw, r_w, r_bind_match,
                 make_r_sub("R-arm-out", r"format!\(\s*\"ENUM\('\{\}'\)\",\s*variants\s*\.iter\(\)\s*\.map\(\|v\| self\.escape_string\(&v\.to_string\(\)\)\)\s*\.collect::<Vec<_>>\(\)\s*\.join\(\"', '\"\)\s*,?\s*\)", "venum_text(variants)"),
                 r_format, r_into, r_idstr, r_unimpl, r_tfmt],
-         spec=[("""requires mysql_has(*column_type),       // the renderer is unimplemented!() for the types MySQL does not have
-ensures
+         spec=[("""ensures
+    // REFUSAL: unimplemented!() for the types MySQL does not have: the function returns only if
+    mysql_has(*column_type),
     // a type MySQL defines for this abstract type; length / precision / scale and UNSIGNED preserved
     !(*column_type is Interval) ==> exists|t: Seq<char>| final(sql).text() == old(sql).text() + t && mysql_type_ok(*column_type, t),""", P),
                ("    // MySQL defines no interval type (the contract is split so that this recorded finding cannot hide another deviation)\n    *column_type is Interval ==> exists|t: Seq<char>| final(sql).text() == old(sql).text() + t && mysql_type_ok(*column_type, t),", P)],
@@ -988,8 +991,9 @@ ensures
          rules=[r_dynw, r_w, r_bind_match, r_format, r_into, r_tostr, r_idstr, r_unimpl, r_tfmt,
                 make_r_sub("R-shadow", r"let mut sql = String::new\(\);\s*self\.prepare_column_type\(elem_type, &mut sql\);", "let mut sql2 = String::new();\n                    self.prepare_column_type(elem_type, &mut sql2);"),
                 make_r_sub("R-shadow", r"vpush_disp\(&mut f_, &\(sql\)\); f_\.push_str\(\"\[\]\"\);", "vpush_disp(&mut f_, &(sql2)); f_.push_str(\"[]\");")],
-         spec="""requires pg_has(*column_type),       // Year: unimplemented!() in the renderer
-ensures
+         spec="""ensures
+    // REFUSAL (Year: unimplemented!()): the function returns only if
+    pg_has(*column_type),
     // a type PostgreSQL defines for this abstract type; length / precision / scale preserved; arrays of such a type
     exists|t: Seq<char>| final(sql).text() == old(sql).text() + t && pg_type_ok(*column_type, t),
 decreases *column_type,""",
